@@ -345,7 +345,9 @@ func (s *seqState) pickProofHeight(minPH uint64) (uint64, string) {
 	}
 }
 
-func minProofHeight(tip, priceTip uint64) uint64 { return max(tip, priceTip) + rhp4.MinContractDuration }
+func minProofHeight(tip, priceTip uint64) uint64 {
+	return max(tip, priceTip) + rhp4.MinContractDuration
+}
 
 func (s *seqState) newPlan() *appendPlan {
 	r := s.r
